@@ -84,10 +84,14 @@ def together(jobs, reps, before_round=None):
     def work(t):
         for r in range(reps):
             try:
-                i = barrier.wait()
+                i = barrier.wait(timeout=120)
                 if i == 0 and before_round is not None:
-                    before_round()
-                barrier.wait()
+                    try:
+                        before_round()
+                    except Exception:
+                        barrier.abort()
+                        return
+                barrier.wait(timeout=120)
             except threading.BrokenBarrierError:
                 return
             got = _run(jobs[t][1])
